@@ -19,7 +19,6 @@ package expr
 import (
 	"fmt"
 	"runtime/debug"
-	"strconv"
 	"strings"
 
 	"github.com/antlr4-go/antlr/v4"
@@ -78,6 +77,39 @@ func Parse(data string) (ret map[string]string, err error) {
 	return l.Result, nil
 }
 
+// unquote removes the surrounding double quotes of a STRING token and resolves
+// the escape sequences the lexer admits: \" \\ \/ \b \f \n \r \t.
+// Every other character, including a raw line break, is kept as is.
+func unquote(s string) string {
+	s = s[1 : len(s)-1]
+	if !strings.Contains(s, "\\") {
+		return s
+	}
+	var sb strings.Builder
+	for i := 0; i < len(s); i++ {
+		c := s[i]
+		if c == '\\' && i+1 < len(s) {
+			i++
+			switch s[i] {
+			case 'b':
+				c = '\b'
+			case 'f':
+				c = '\f'
+			case 'n':
+				c = '\n'
+			case 'r':
+				c = '\r'
+			case 't':
+				c = '\t'
+			default: // '"', '\\', '/'
+				c = s[i]
+			}
+		}
+		sb.WriteByte(c)
+	}
+	return sb.String()
+}
+
 // ErrorListener implements a custom ANTLR error listener that records syntax errors.
 type ErrorListener struct {
 	*antlr.DefaultErrorListener
@@ -128,11 +160,7 @@ func (l *ParseTreeListener) parseInnerExpr(key string, ctx IInnerExprContext) {
 	}
 	switch {
 	case ctx.Value().STRING() != nil:
-		s, err := strconv.Unquote(ctx.Value().STRING().GetText())
-		if err != nil {
-			panic(err)
-		}
-		l.Result[fieldKey] = s
+		l.Result[fieldKey] = unquote(ctx.Value().STRING().GetText())
 	case ctx.Value().IDENT() != nil:
 		l.Result[fieldKey] = ctx.Value().IDENT().GetText()
 	case ctx.Value().INTEGER() != nil:
